@@ -111,10 +111,6 @@ def run(ctx):
         ctx.violation("correspondence job failed (harness or driver crashed): " + lbl, {"cmd": cmd, "rc": rc, "tail": tail}, no_input=True)
     spec_mm = [m for m in r["mismatch_lines"] if "kind=spec" in m[2]]
     model_mm = [m for m in r["mismatch_lines"] if "kind=model" in m[2]]
-    hidden = r["mismatches_spec"] - len(spec_mm) - r["extra"].get("spec_repeats_suppressed", 0)
-    if hidden > 0 and len(r["mismatch_lines"]) >= 200:
-        ctx.violation("%d property-oracle mismatches were not captured (more than the pipeline keeps); rerun the failing jobs by hand" % hidden,
-                      {"mismatches_spec": r["mismatches_spec"], "captured": len(spec_mm)}, no_input=True)
     reported = set()
     n_viol_before = len(ctx.violations)
     for lbl, cmd, line in spec_mm:
@@ -129,6 +125,13 @@ def run(ctx):
                        "how_to_rerun": cmd + " | " + driver}, key=key)
         if len(ctx.violations) >= 5:
             break
+    hidden = r["mismatches_spec"] - len(spec_mm) - r["extra"].get("spec_repeats_suppressed", 0)
+    if hidden > 0 and len(r["mismatch_lines"]) >= 200:
+        msg = "%d further property-oracle mismatches were not captured (the pipeline keeps 200 lines)" % hidden
+        if len(ctx.violations) == n_viol_before:
+            ctx.violation(msg + "; rerun the failing jobs by hand", {"mismatches_spec": r["mismatches_spec"], "captured": len(spec_mm)}, no_input=True)
+        else:
+            ctx.notes.append(msg)
     # (known findings do not count: only a reported property violation makes the search unnecessary)
     if model_mm and len(ctx.violations) == n_viol_before:
         # SEARCH (DESIGN 3.6): the tie broke but the regular histories did not violate the property
